@@ -39,6 +39,7 @@ type Runtime struct {
 	valueStream store.Stream
 	symbolTable *symbol.Table
 	mu          sync.RWMutex
+	loadMu      sync.Mutex
 }
 
 // New creates a new Runtime instance with the specified configuration.
@@ -79,6 +80,9 @@ func New(config Config) *Runtime {
 
 // Load loads symbols from the spec store into the symbol table.
 func (r *Runtime) Load(ctx context.Context, filter any) error {
+	r.loadMu.Lock()
+	defer r.loadMu.Unlock()
+
 	if filter == nil {
 		filter = map[string]any{meta.KeyNamespace: r.namespace}
 	} else {
